@@ -32,7 +32,9 @@ var names = []string{"a", "b", "c", "d"}
 // oddNames are legal entry names that careless path handling mistreats: consecutive dots (not a ".." element),
 // leading dot, trailing dot, blanks, non-ASCII, shell/URL metacharacters. Drawn rarely: the tiny alphabet above
 // is what makes paths collide.
-var oddNames = []string{"a..b", "...", ".h", "a b", "\u00fc", "x.y", "-", "~t", "a.", "c#", "%41"}
+var oddNames = []string{"a..b", "...", ".h", "a b", "\u00fc", "x.y", "-", "~t", "a.", "c#", "%41",
+	// names that differ from the common ones by case only: two entries of one build may collide under case folding
+	"A", "B"}
 
 var SizeClasses = []int{0, 1, 2, 100, BS - 1, BS, BS + 1, 2*BS - 1, 2 * BS, 2*BS + 1, 3 * BS, 5*BS + 17}
 
